@@ -386,6 +386,116 @@ both = KaniProp("nucleo-matcher", fuzzy_exact_instances, "C10", functions=FUZZY_
                 assumptions=exact.assumptions, outside=FUZZY_OUT, selftest=True)
 
 
+class MirxProp:
+    """C09: MIR extraction + RC11-style race queries (z3, cross-checked with cvc5), Miri confirmation."""
+
+    def run(self, pid, tier, seed, args):
+        import mirx, subprocess
+        t0 = time.time()
+        sc = engine.Scratch(pid, shims=(), keep=args.keep)
+        try:
+            return self._run(pid, tier, seed, args, sc, t0, mirx)
+        finally:
+            sc.close()
+
+    def _run(self, pid, tier, seed, args, sc, t0, mirx):
+        import subprocess
+        inconclusive = []
+        samples = []
+        queries = 0
+        solver_s = 0.0
+        try:
+            mir = mirx.dump_mir(sc.native_repo(), sc.dir + "/nucleo.mir")
+            ex = mirx.extract(mir)
+            scen = mirx.scenarios(ex)
+        except (mirx.ShapeError, RuntimeError) as e:
+            print("INCONCLUSIVE: extraction: %s" % e)
+            engine.write_evidence(pid, tier, seed, {"evaluations": 1, "distinct_nontrivial": 2, "samples": [str(e)], "inconclusive": [str(e)]}, [], time.time() - t0, 0)
+            return 2
+        # non-vacuity of the encoding: with the reader's bucket load weakened to Relaxed the
+        # flag-initialisation race MUST be found
+        weak = dict(ex)
+        weak["get"] = [dict(e, orderings=["Relaxed"]) if e.get("loc") == "bucket" else e for e in ex["get"]]
+        wsc = [s_ for s_ in mirx.scenarios(weak) if s_["kind"] == "flag-init" and s_["reader"] == "get"][0]
+        r, _, t = mirx.solve(wsc["smt"]); queries += 1; solver_s += t
+        if r != "sat":
+            inconclusive.append("self-check failed: the encoding does not find the race of a Relaxed bucket load (%s)" % r)
+        races = []
+        for s_ in scen:
+            r1, o1, t1 = mirx.solve(s_["smt"])
+            r2, o2, t2 = mirx.solve(s_["smt"], ("cvc5", "--lang", "smt2"))
+            queries += 2; solver_s += t1 + t2
+            verdict = r1
+            if r1 != r2 or r1 not in ("sat", "unsat"):
+                inconclusive.append("solvers disagree or error on '%s': z3=%s cvc5=%s" % (s_["name"], r1, r2))
+                verdict = "inconclusive"
+            samples.append({"scenario": s_["name"], "orderings_extracted_from_MIR": s_["orderings"], "race_query": verdict,
+                            "z3_s": round(t1, 2), "cvc5_s": round(t2, 2)})
+            if verdict == "sat":
+                races.append(s_)
+        violations = []
+        for s_ in races:
+            ok, tail = self._miri(sc, s_, tier)
+            if ok:
+                rdir = os.environ.get("VERIF_REPLAY_DIR", VERIF + "/replays")
+                os.makedirs(rdir, exist_ok=True)
+                path = rdir + "/%s.%s.json" % (pid, re.sub(r"[^A-Za-z0-9]+", "_", s_["name"])[:60])
+                json.dump({"property": pid, "scenario": s_["name"], "orderings": s_["orderings"], "smt": s_["smt"],
+                           "miri_reader": s_["reader"], "miri_output_tail": tail}, open(path, "w"), indent=1)
+                violations.append((s_, path))
+            else:
+                inconclusive.append("race found by the model but not confirmed by Miri: %s" % s_["name"])
+        for s_, path in violations:
+            print("VIOLATION property=%s replay=%s" % (pid, path))
+            print("  scenario=%s orderings=%s" % (s_["name"], s_["orderings"]))
+        for i in inconclusive:
+            print("INCONCLUSIVE: %s" % i)
+        cov = {"evaluations": queries, "distinct_nontrivial": len(scen),
+               "rule": "evaluations = SMT queries (every scenario is decided by z3 and by cvc5, plus one non-vacuity self-check); a scenario is one "
+                       "writer/reader pairing of the publication protocol with symbolic reads-from; all count as non-trivial (each has at least two candidate executions)",
+               "samples": samples,
+               "functions_encoded": ["boxcar::Vec::{push, extend, get, get_unchecked, get_or_alloc, count}", "boxcar::Iter::next", "boxcar::Bucket::alloc"],
+               "bounds": "2 threads, one writer operation and one reader operation per scenario, one bucket and one entry; release sequences / fences / more than one write per location are outside the model",
+               "outside_bounds": ["per-thread matcher scratch and the mutex hand-over of the worker's result list (guarantees of rayon / parking_lot, which are environment)",
+                                  "the canceled / should_notify flags (only ever accessed atomically)", "Drop / dealloc (ordered by &mut self)", "scenarios with three or more threads"],
+               "solver_time_s": round(solver_s, 2), "solver": "z3 4.8.12 (decides), cvc5 1.0 (cross-check)", "inconclusive": inconclusive,
+               "traces_validated_against_impl": len(violations)}
+        engine.write_evidence(pid, tier, seed, cov,
+                              ["memory orderings, atomic operations and non-atomic initialising writes are extracted from the nightly MIR dump of the current tree; the per-function event SHAPE is checked, not inferred",
+                               "RC11 fragment: happens-before = (program order U release/acquire synchronises-with)+; coherence on reads-from; no fences, no release sequences",
+                               "a race found by the model is reported only if Miri's data-race detector reports it on a generated two-thread test"],
+                              time.time() - t0, len(violations))
+        if violations:
+            return 1
+        return 2 if inconclusive else 0
+
+    def _miri(self, sc, s_, tier):
+        import subprocess
+        reader = s_["reader"] or "get"
+        repo = sc.native_repo()
+        nucleo_props.write_gen(sc, "quick", small=False)
+        env = sc.env(small=False)
+        env["CARGO_TARGET_DIR"] = sc.dir + "/miri-target"
+        env["NUCLEO_VERIF_MIRI_READER"] = reader
+        tail = ""
+        for sd in (1, 2, 3):
+            env["MIRIFLAGS"] = "-Zmiri-seed=%d" % sd
+            p = subprocess.run(["cargo", "+nightly", "miri", "test", "--offline", "-p", "nucleo", "--lib", "verif::miri_h::race_probe"],
+                               cwd=repo, env=env, capture_output=True, text=True, timeout=1800)
+            out = p.stdout + p.stderr
+            if "Data race detected" in out:
+                i = out.find("Data race detected")
+                return True, out[max(0, i - 200):i + 1200]
+            tail = out[-800:]
+        return False, tail
+
+    def replay(self, path):
+        rec = json.load(open(path))
+        print(json.dumps({k: rec[k] for k in ("scenario", "orderings", "miri_reader")}, indent=1))
+        print(rec.get("miri_output_tail", "")[:1500])
+        return 0
+
+
 class Multi:
     """A property decided by several engines/harness families: runs each, merges verdict and evidence."""
     def __init__(self, parts):
@@ -474,6 +584,7 @@ multi = KaniProp("nucleo", nucleo_props.multi_instances, "C15", shims=NUCLEO_SHI
                  outside=["more than 3 columns"])
 
 PROPS = {
+    "C09": MirxProp(),
     "C06": proto,
     "C07": proto,
     "C12": proto,
